@@ -32,6 +32,18 @@ CHECKS = {
          "deterministic simulation: operation histories on the real stores/manager/retention scanner with observers on the public extension host; the seeded scheduler decides when every asynchronous event goroutine runs; exactly-once conservation, non-overlap and causal-order oracles at quiescence",
          "Seeded search over operation histories x limit configurations x schedules of the asynchronous event dispatch. At quiescence every id that ever was listed has exactly one stored event, exactly one deleted event iff gone (whatever removed it), no observer invocation overlaps another, stored precedes deleted, stored events of a mailbox arrive in arrival order.",
          "One client issues the operations. One known finding (oversized delivery under maxkb: deleted precedes stored) is listed in known_findings.json and avoided in the main batch by an 'oversize' generator switch; a dedicated batch reproduces it on every run."),
+ "C01": ("exploration", "DESIGN.md §4 C01",
+         "deterministic simulation: whole SMTP->manager->store path on a simulated network (seeded segmentation, delay, buffers, cuts), 1-3 concurrent reply-driven clients, per-run configuration swarm; conservation oracle over ALL mailboxes at quiescence against reference naming/policy models",
+         "Seeded search over SMTP dialogues x configurations x connection behaviour; what the store holds at the end must equal what the replies promised (exactly one copy per accepted, storable recipient of every 250-acknowledged transaction, nothing for refused/reset/incomplete ones, nothing in any other mailbox).",
+         "Addresses restricted to the class where naming is undisputed (C04 covers the rest); cap/size limit/retention off. Trusted: reference naming and policy models (sim/models), simulated TCP semantics."),
+ "C03": ("fault_enumeration", "DESIGN.md §4 C03",
+         "deterministic simulation with fault enumeration: SMTP session vs a reference state machine line by line (exactly one well-formed reply, sequencing constraints), connection cut (FIN/RST) at enumerated byte offsets of valid dialogues, client stalls past the idle timeout; store checked afterwards",
+         "Per sampled dialogue the cut offsets are enumerated (quick: 14-33 seeded offsets + both ends; thorough: every byte offset for a third of the dialogues); command histories are seeded samples from a grammar including malformed, over-long and binary lines.",
+         "TLS never enabled. The reference state machine constrains acceptance only in the direction the statement gives. Transfers slower than the idle timeout are outside the workload (see DESIGN observations)."),
+ "C12": ("exploration", "DESIGN.md §4 C12",
+         "deterministic simulation on a simulated clock: real RetentionScanner (DoScan and the Start/Join loop) over both real stores, racing deliveries/removals at seeded simulated instants, cancellation at a seeded instant; recording Store wrapper gives scan windows and removals for the oracle",
+         "Seeded search over age distributions around the cutoff (+-1ns, +-1s, ...), periods, sleeps, back-ends, racers and cancellation times; hours of simulated time per run cost microseconds.",
+         "Message dates are those passed to AddMessage. Young-message preservation is asserted for every scanner removal; completeness for scans that finished before cancellation."),
 }
 
 NOT_YET = "check under construction in this session; not claimed until it runs clean on the unchanged tree"
